@@ -100,11 +100,14 @@ async function next_record(it, stream, what) {
     return state;
 }
 
-async function drain_iterator(it, stream, max_records) {
+async function drain_iterator(it, stream, max_records, pause_every) {
+    // pause_every: a consumer that hands control back to the event loop after every so many records (it awaits IO of its own), so that the producer
+    // runs ahead and the records pile up between the two
     let records = [];
     let error = null;
     let stuck = false;
     while (true) {
+        if (pause_every && records.length % pause_every == 0) await turns(1);
         let st = await next_record(it, stream);
         if (st.stuck) { stuck = true; break; }
         if (st.err !== undefined) { error = err_info(st.err); break; }
@@ -146,7 +149,7 @@ async function op_read(req) {
         } else if (herr) {
             result = {records: [], error: herr, stuck: false, header: null, warnings: []};
         } else {
-            let d = await drain_iterator(it, stream, null);
+            let d = await drain_iterator(it, stream, null, req.consumer_pause_every || 0);
             result = {records: d.records, error: d.error, stuck: d.stuck, header: header, warnings: it.get_warnings()};
         }
     } catch (e) {
@@ -204,7 +207,7 @@ async function op_read_file_stream(req) {
         }
         try {
             let it = new rbql_csv.CSVRecordIterator(stream, mode == 'bulk' ? p : null, req.encoding, req.delim, req.policy, false, null);
-            let d = await drain_iterator(it, stream, null);
+            let d = await drain_iterator(it, stream, null, req.consumer_pause_every || 0);
             out[mode] = {records: d.records, error: d.error, stuck: d.stuck, warnings: it.get_warnings(), emitted: sizes};
         } catch (e) {
             out[mode] = {records: [], error: err_info(e), stuck: false, warnings: [], emitted: sizes};
